@@ -58,6 +58,7 @@ POOL = {
     "SO+": ({"S": 1, "O": 1}, 1), "SiH": ({"Si": 1, "H": 1}, 0), "HS+": ({"S": 1, "H": 1}, 1),
     "O*": ({"O": 1}, 0),      # an excited atom: an atomic form of O whose name is not the element's
     "#OH": ({"O": 1, "H": 1}, 0), "#OH-": ({"O": 1, "H": 1}, -1),      # an ice in two charge states (targeted cases only)
+    "#1CO": ({"C": 1, "O": 1}, 0), "#1H": ({"H": 1}, 0), "#1H2O": ({"H": 2, "O": 1}, 0),   # the same ices on a second grain population (targeted cases only)
 }
 ELECTRONS = {"e-", "E", "E-"}
 PSEUDO = ["CR", "CRP", "PHOTON", "CRPHOT"]
@@ -107,7 +108,7 @@ def balanced_reaction(rng: random.Random, pool: list[str]):
 # ------------------------------------------------------------------------------------------ building real networks
 
 # compositions known to the pool but only used by targeted networks (with the default lists `M` is a pseudo element, not a species)
-NOT_DRAWN = {"M", "M+", "#OH", "#OH-"}
+NOT_DRAWN = {"M", "M+", "#OH", "#OH-", "#1CO", "#1H", "#1H2O"}
 
 
 def build_network(desc: dict):
@@ -642,6 +643,11 @@ def main(ctx: Ctx) -> int:
         # an ice species in two charge states, one converted into the other: two species, two slots, charge balanced
         {"reactions": [(["OH"], ["#OH"]), (["#OH", "e-"], ["#OH-"]), (["#OH-", "H+"], ["#OH", "H"]), (["H", "H"], ["H2"])], "required": [], "origin": "random"},
         {"reactions": [(["#OH-", "H+"], ["#OH", "H"]), (["#OH", "e-"], ["#OH-"]), (["#OH"], ["OH"])], "required": ["H2"], "origin": "random"},
+        # the same molecule as an ice on TWO grain populations (#CO, #1CO): distinct species, each term goes to its own population's slot
+        {"reactions": [(["CO"], ["#CO"]), (["CO"], ["#1CO"]), (["H"], ["#1H"]), (["H"], ["#H"]), (["#1H", "#1H"], ["H2"]), (["#1CO"], ["CO"]), (["#CO"], ["CO"]),
+                       (["#H", "#H"], ["H2"])], "required": [], "origin": "random"},
+        {"reactions": [(["H2O"], ["#1H2O"]), (["#1H2O"], ["H2O"]), (["H2O"], ["#H2O"]), (["#1H", "#CO"], ["H", "CO"]), (["#H", "#1CO"], ["H", "CO"])],
+         "required": ["#H2O"], "origin": "random"},
         # a species name the element list cannot parse (Ti is not a default element): the network is refused -- never built without it
         {"reactions": [(["TiO", "H"], ["Ti", "OH"]), (["Ti", "H3+"], ["Ti+", "H2", "H"]), (["H", "H"], ["H2"])], "required": [], "unparseable": ["TiO", "Ti", "Ti+"],
          "origin": "random"},
